@@ -79,6 +79,22 @@ func oracleC09(t *Trace, v *vset) {
 		if k > 0 {
 			which = "second"
 		}
+		// r6: "only actions that were in flight may be invoked again": an action of a
+		// bypass / pre / post / deferred check group that was durably Completed, in a
+		// group that was durably Completed, is not invoked by the recovering process.
+		// (Continuous checks are re-run by design.)
+		for _, in := range t.Invs {
+			if in.Gen != ci.Gen+1 || in.Obj == nil || !in.Obj.IsCheckAction() || in.Obj.Group == "cont" {
+				continue
+			}
+			d := ci.D[in.Obj.Plan]
+			if d == nil {
+				continue
+			}
+			if status(d, in.Obj.Path) == StCompleted && status(d, in.Obj.Parent) == StCompleted {
+				v.addf("C09", "C09.r6", "action of a durably Completed "+in.Obj.Group+" check group invoked again"+" (after the "+which+" crash)", []int{ci.Seq, in.EnterSeq}, "%s invoked in the recovering process; the action and its group %s were stored Completed at the crash", in.Obj.Path, in.Obj.Parent)
+			}
+		}
 		for _, in := range t.Invs {
 			if in.Gen != ci.Gen+1 || in.Obj == nil || !in.Obj.IsSeqAction() {
 				continue
